@@ -35,6 +35,14 @@ STATUS_FUNCTIONS: Dict[str, Callable[[Tuple[int, ...]], int]] = {
 }
 
 
+class _Log(list):
+    """(request text, verdict) pairs; ``labels`` names the endpoint whose dispatcher produced each."""
+
+    def __init__(self) -> None:
+        super().__init__()
+        self.labels: List[str] = []
+
+
 class HopResult:
     def __init__(self) -> None:
         self.status: Optional[int] = None
@@ -42,13 +50,15 @@ class HopResult:
         self.body: bytes = b''
         self.raised: Optional[BaseException] = None
         self.dispatched: List[Tuple[str, Any]] = []   # (request text, verdict)
+        self.endpoints: List[str] = []                # which endpoint's dispatcher was used
 
     def media_type(self) -> Optional[str]:
         return self.ctype.split(';')[0].strip().lower() if self.ctype else None
 
 
-def _wrap_dispatch(w: World, dispatcher: Any, node: str, log: List[Tuple[str, Any]]) -> None:
+def _wrap_dispatch(w: World, dispatcher: Any, node: str, log: List[Tuple[str, Any]], label: str = 'main') -> None:
     orig = dispatcher.dispatch
+    labels = log.labels  # type: ignore[attr-defined]
     if asyncio.iscoroutinefunction(orig):
         async def adispatch(request_text: str, context: Any = None) -> Any:
             try:
@@ -58,7 +68,8 @@ def _wrap_dispatch(w: World, dispatcher: Any, node: str, log: List[Tuple[str, An
                 w.rec(node, 'http.dispatch_raised', exc=type(e).__name__)
                 raise
             log.append((request_text, verdict))
-            w.rec(node, 'http.verdict', text=request_text if len(request_text) < 300 else request_text[:300],
+            labels.append(label)
+            w.rec(node, 'http.verdict', endpoint=label, text=request_text if len(request_text) < 300 else request_text[:300],
                   verdict=None if verdict is None else [verdict[0], list(verdict[1])])
             return verdict
         dispatcher.dispatch = adispatch
@@ -71,7 +82,8 @@ def _wrap_dispatch(w: World, dispatcher: Any, node: str, log: List[Tuple[str, An
                 w.rec(node, 'http.dispatch_raised', exc=type(e).__name__)
                 raise
             log.append((request_text, verdict))
-            w.rec(node, 'http.verdict', text=request_text if len(request_text) < 300 else request_text[:300],
+            labels.append(label)
+            w.rec(node, 'http.verdict', endpoint=label, text=request_text if len(request_text) < 300 else request_text[:300],
                   verdict=None if verdict is None else [verdict[0], list(verdict[1])])
             return verdict
         dispatcher.dispatch = dispatch
@@ -84,7 +96,7 @@ class FlaskHop:
     def __init__(self, w: World, path: str, sub: Optional[str], status_fn: str, dispatcher_kwargs: Dict[str, Any]):
         self.w = w
         self.node = 'flask'
-        self.log: List[Tuple[str, Any]] = []
+        self.log: Any = _Log()
         self.service = Service(w, 'sync', node=self.node)
         self.app = flask.Flask('pjsim_flask')
         self.rpc = pj_flask.JsonRPC(path, status_by_error=STATUS_FUNCTIONS[status_fn], error_handlers={}, **dispatcher_kwargs)
@@ -93,7 +105,7 @@ class FlaskHop:
         if sub:
             d = self.rpc.add_endpoint(sub, error_handlers={}, **dispatcher_kwargs)
             d.add_methods(self.service.registry())
-            _wrap_dispatch(w, d, self.node, self.log)
+            _wrap_dispatch(w, d, self.node, self.log, 'sub')
         self.rpc.init_app(self.app)
         self.client = self.app.test_client()
 
@@ -106,6 +118,7 @@ class FlaskHop:
         except Exception as e:  # noqa: BLE001
             res.raised = e
         res.dispatched = list(self.log)
+        res.endpoints = list(self.log.labels)
         return res
 
 
@@ -116,7 +129,7 @@ class WerkzeugHop:
     def __init__(self, w: World, path: str, sub: Optional[str], status_fn: str, dispatcher_kwargs: Dict[str, Any]):
         self.w = w
         self.node = 'werkzeug'
-        self.log: List[Tuple[str, Any]] = []
+        self.log: Any = _Log()
         self.service = Service(w, 'sync', node=self.node)
         self.rpc = pj_werkzeug.JsonRPC(path, error_handlers={}, **dispatcher_kwargs)
         self.rpc.dispatcher.add_methods(self.service.registry())
@@ -132,6 +145,7 @@ class WerkzeugHop:
         except Exception as e:  # noqa: BLE001
             res.raised = e
         res.dispatched = list(self.log)
+        res.endpoints = list(self.log.labels)
         return res
 
 
@@ -144,7 +158,7 @@ class AiohttpHop:
         self.w = w
         self.node = 'aiohttp'
         self.loop = ensure_loop(w)
-        self.log: List[Tuple[str, Any]] = []
+        self.log: Any = _Log()
         self.service = Service(w, flavour, node=self.node)
         self.rpc = pj_aiohttp.Application(path, status_by_error=STATUS_FUNCTIONS[status_fn], error_handlers={},
                                           **dispatcher_kwargs)
@@ -153,7 +167,7 @@ class AiohttpHop:
         if sub:
             d = self.rpc.add_endpoint(sub, error_handlers={}, **dispatcher_kwargs)
             d.add_methods(self.service.registry())
-            _wrap_dispatch(w, d, self.node, self.log)
+            _wrap_dispatch(w, d, self.node, self.log, 'sub')
 
     def post(self, url: str, body: bytes, content_type: Optional[str]) -> HopResult:
         res = HopResult()
@@ -181,6 +195,7 @@ class AiohttpHop:
         except Exception as e:  # noqa: BLE001
             res.raised = e
         res.dispatched = list(self.log)
+        res.endpoints = list(self.log.labels)
         return res
 
 
